@@ -104,7 +104,9 @@ pub fn make_config(k: &PcKnobs, side: usize, plan: &Plan) -> RtcConfiguration {
     if k.latch == 2 {
         c.probation_max_packets = Some(3);
     }
-    c.sdp_compatibility = if k.compat == 1 { rustrtc::SdpCompatibilityMode::LegacySip } else { rustrtc::SdpCompatibilityMode::Standard };
+    // knob compat_mix = 1: the answerer runs the other SDP compatibility mode than the offerer
+    let compat = if plan.knob("compat_mix", 0) == 1 && side == answerer { 1 - k.compat.clamp(0, 1) } else { k.compat };
+    c.sdp_compatibility = if compat == 1 { rustrtc::SdpCompatibilityMode::LegacySip } else { rustrtc::SdpCompatibilityMode::Standard };
     c.ssrc_start = 10_000 + side as u32 * 5_000;
     // knobs shared with other PeerConnection scenarios
     if let Some(v) = plan.knobs.get("ice_disconnect_grace_ms") {
